@@ -18,7 +18,7 @@ from .. import gen, xu, zoo
 LEVEL = "fault_enumeration"
 EXHAUSTIVE = {"quick": False, "thorough": True}
 RULE = (
-    "fault catalogue (fit-time: 21 faults, transform-time: 13, inverse_transform: 3, negative controls: 4) x model class "
+    "fault catalogue (fit-time: 23 faults, transform-time: 14, inverse_transform: 3, negative controls: 4) x model class "
     "(quick: representatives of every family; thorough: every class of xeofs.single/cross/multi incl. rotators) x "
     "container kind (DataArray / Dataset / list) where the fault is expressible; every combination is enumerated, "
     "nothing is sampled (the seed only changes the numbers inside the valid base data); non-trivial = the un-mutated "
@@ -34,13 +34,13 @@ ALL_CLASSES = tuple(zoo.SINGLE) + tuple(zoo.SINGLE_ROT) + tuple(zoo.CROSS) + tup
 
 FIT_FAULTS = (
     "type_ndarray", "type_list_ndarray", "type_dataframe", "type_none", "type_int",
-    "dim_unknown", "dim_empty", "dim_all", "dim_nonstring",
+    "dim_unknown", "dim_partly_unknown", "dim_partly_unknown_nocenter", "dim_empty", "dim_all", "dim_nonstring",
     "nmodes_gt_rank", "nmodes_rank_plus1", "nmodes_gt_rank_square", "nmodes_zero", "nmodes_negative", "nmodes_string", "nmodes_none", "nmodes_float_gt1",
     "solver_unknown", "alpha_negative", "samples_mismatch", "weights_ndarray",
 )
 TRANSFORM_FAULTS = (
     "t_type_ndarray", "t_missing_feature_dim", "t_missing_sample_dim", "t_extra_dim", "t_renamed_dim", "t_shifted_coords",
-    "t_reordered_other_values", "t_fewer_features", "t_dropped_variable", "t_wrong_list_length", "t_list_too_long", "t_list_for_single", "t_dataarray_for_dataset",
+    "t_reordered_other_values", "t_reordered_same_labels", "t_fewer_features", "t_dropped_variable", "t_wrong_list_length", "t_list_too_long", "t_list_for_single", "t_dataarray_for_dataset",
 )
 INVERSE_FAULTS = ("i_unknown_mode", "i_unknown_modes_mixed", "i_type_ndarray")
 # c_dataset_wrapping_dataarray: the SAME numbers wrapped into a one-variable Dataset for a DataArray-fitted model;
@@ -72,6 +72,8 @@ def _applicable(cls, container, fault):
         return k != "multi"
     if fault == "weights_ndarray":
         return k != "multi"
+    if fault == "dim_partly_unknown_nocenter":
+        return k == "single" and cls not in ("ExtendedEOF", "OPA")
     if fault.startswith("t_"):
         if cls not in zoo.HAS_TRANSFORM:
             return False
@@ -81,7 +83,7 @@ def _applicable(cls, container, fault):
             return container == "list"
         if fault == "t_list_for_single":
             return container == "dataarray" and k != "multi"
-        if fault in ("t_missing_feature_dim", "t_fewer_features", "t_reordered_other_values", "t_shifted_coords", "t_renamed_dim", "t_extra_dim", "t_missing_sample_dim"):
+        if fault in ("t_missing_feature_dim", "t_fewer_features", "t_reordered_other_values", "t_reordered_same_labels", "t_shifted_coords", "t_renamed_dim", "t_extra_dim", "t_missing_sample_dim"):
             return True
     if fault.startswith("i_"):
         return cls in zoo.HAS_INVERSE
@@ -160,6 +162,13 @@ def _mutate_transform(fault, X, rng):
             d = "lon" if "lon" in o.dims else o.dims[-1]
             return o.assign_coords({d: o[d].values[::-1] * 2 + 1})
         return _map(X, f, only_first=True)
+    if fault == "t_reordered_same_labels":
+        # the same SET of labels attached to the positions in reverse order (values stay where they are):
+        # the coordinates differ from the fitted ones although a set comparison would call them equal
+        def g(o):
+            d = "lat" if "lat" in o.dims else o.dims[-1]
+            return o.assign_coords({d: o[d].values[::-1]})
+        return _map(X, g, only_first=True)
     if fault == "t_fewer_features":
         return _map(X, lambda o: o.isel(lon=slice(0, 2)) if "lon" in o.dims else o.isel({o.dims[-1]: slice(0, 2)}), only_first=True)
     if fault == "t_dropped_variable":
@@ -274,6 +283,12 @@ def run_case(case, obs):
             expect_refusal(lambda: do_fit([3] + d[1:]), "int as input")
         elif fault == "dim_unknown":
             expect_refusal(lambda: do_fit(d, dim="no_such_dim"), "unknown sample dimension")
+        elif fault == "dim_partly_unknown":
+            expect_refusal(lambda: do_fit(d, dim=("time", "no_such_dim")), "one existing and one unknown sample dimension")
+        elif fault == "dim_partly_unknown_nocenter":
+            # without centring / standardising nothing in the scaler reduces over the sample dimensions,
+            # so a later stage has to notice the unknown name
+            expect_refusal(lambda: do_fit(d, dict(kw, center=False), dim=("time", "no_such_dim")), "one existing and one unknown sample dimension, center=False")
         elif fault == "dim_empty":
             expect_refusal(lambda: do_fit(d, dim=()), "empty sample dimensions")
         elif fault == "dim_all":
